@@ -181,6 +181,7 @@ package keeper
 // Clauses are stated for a registry whose records carry 20-byte addresses (SetCustomPrecompiledContractMeta stores no other:
 // C17.valid_records_only).
 //@ func (k *Keeper) NewEVM(ctx sdk.Context, msg core.Message, cfg *evmvm.EVMConfig, tracer corevm.EVMLogger, stateDB corevm.StateDB) *corevm.EVM
+//@   deterministic[C01.no_node_local_source]
 //@   requires k != nil && cfg != nil && k.cpcKeeper.storeKey != nil && k.cpcKeeper.cdc != nil
 //@   modifies nothing
 //@   ensures result != nil && fresh(result) && result.StateDB == stateDB && result.Context.BlockNumber != nil && bigval[result.Context.BlockNumber] == ctx.BlockHeight()
